@@ -77,6 +77,8 @@ def parse(t):
             op = tuple(t[i:i + 8]); i += 8
         elif t[i] == 4:
             op = tuple(t[i:i + 10]); i += 10
+        elif t[i] == 5:
+            op = tuple(t[i:i + 14]); i += 14
         else:
             op = tuple(t[i:i + 2]); i += 2
         fors = []
@@ -89,6 +91,11 @@ def parse(t):
 
 
 def fmt_op(op):
+    if op[0] == 5:
+        def one(o):
+            cls = [n for n, f in zip(("loopback", "nat64", "relay"), o[0:3]) if f]
+            return "observedTW=%d fam=%d proto=%d%s" % (o[3], o[4], o[5], (" " + "+".join(cls)) if cls else "")
+        return "observe_twice_in_quick_succession(conn=%d, first: %s; then: %s)" % (op[1], one(op[2:8]), one(op[8:14]))
     if op[0] in (1, 4):
         cls = [n for n, f in zip(("loopback", "nat64", "relay"), op[2:5]) if f]
         r = "observe(conn=%d, observedTW=%d fam=%d proto=%d%s)" % (op[1], op[5], op[6], op[7], (" " + "+".join(cls)) if cls else "")
@@ -195,7 +202,8 @@ if __name__ == "__main__":
              "non-thin-waist), 18 remote IPs (same IP on several conns, IPv6 sharing a /64, sharing only a /56, other /56, IPv4-mapped, no IP), "
              "50 observed addresses of every class (public, private, loopback, NAT64, relayed, no thin waist, transports sharing a thin waist), "
              "ActivationThresh set to 1..5 per case, phase-structured (build-up on hot addresses, churn, noise, teardown, late reports on closed conns) "
-             "plus a malformed stream; 1 observe in 10 runs with a hook on the listenAddrs() call inside shouldRecordObservation that closes and disconnects "
+             "plus a malformed stream; directed histories with 62..100 distinct observed addresses tracked for one local address before a change of report; "
+             "directed event-bus histories with two reports of one connection close together (the first held at listenAddrs() until the second is queued); 1 observe in 10 runs with a hook on the listenAddrs() call inside shouldRecordObservation that closes and disconnects "
              "the observed (or another) connection before the manager's lock is taken. After every op AddrsFor(q) for every listen address and two non-listen addresses and Addrs(0) are recorded as lists "
              "(order kept), compared with the Coq model (conform_case) and judged by the property monitor (monitor_case). Non-trivial = some answer was "
              "non-empty (an address crossed the threshold); distinct = distinct case lines among those. "
